@@ -260,6 +260,16 @@ def run_engine_checks(ctx, pid):
                    "store / delete sites of all %d functions agree between the AST extractor and the compiled bytecode" % n, True)
     except Exception as e:
         ctx.ob("bytecode-cross-extraction", "-", ERROR, "cross-extraction failed: %r" % (e,))
+    try:
+        from .controls import walkcheck
+        n, probs = walkcheck.run()
+        if probs:
+            ctx.ob("walker-vs-cpython", "pta/controls/walkcheck.py", ERROR, "path walker misses a real execution of a synthetic control: " + probs[0][:300])
+        else:
+            ctx.ob("walker-vs-cpython", "pta/controls/walkcheck.py", DISCHARGED,
+                   "every one of %d concrete executions of the synthetic control functions (all fault scenarios of their probe calls) is among the paths the walker enumerates (assumption A3)" % n, True)
+    except Exception as e:
+        ctx.ob("walker-vs-cpython", "-", ERROR, "engine self-test crashed: %r" % (e,))
     tools = [f for f in ctx.P.funcs.values() if f.module.is_tools]
     offenders = []
     for f in tools:
